@@ -263,8 +263,7 @@ def run(tier, seed):
                 "values: complete small alphabets per type incl. None/empty/1/2-element containers. non-trivial = distinct (shape, value) cases that passed every clause" % (
                     len(annotations()), "all (thorough: all value pairs; quick: 3x2 values per pair)"),
         "case_kinds": dict(labels), "classes_generated": len(_CLASSES), "exhaustive": True,
-        "samples": [{"shape": "Dict[C15Mode, C15Inner]", "value": "{C15Mode.ON: C15Inner(n=2**40,s='x'), C15Mode.OFF: C15Inner()}"},
-                    {"shape": "Tuple[float, bool] + Set[str]", "value": "((0.5, True), {'', 'é'})"}],
+        "samples": [{"case": label, "object": repr(obj)[:160], "toJson": repr(obj.toJson())[:160]} for obj, label, ident in itertools.islice(cases(tier), 150, 20000, 6000)],
     }
     rep.assumptions = ["fields hold values of their annotated types; None only for container fields; enum member names upper-case (as documented)"]
     return rep
